@@ -309,7 +309,8 @@ class BaseFileLock(abc.ABC):
         self._lock_counter = max(0, self._lock_counter - 1)
 
     def __enter__(self: FileLockT) -> FileLockT:
-        self.acquire()
+        if not self.acquire():  # Only possible with a default timeout
+            raise TimeoutError("Failed to acquire file lock:", self._lock_file)
         return self
 
     def __exit__(self, *_exc: Any) -> None:
